@@ -96,33 +96,33 @@ abbrev FS := List (Bytes × Kind)
 def stat (fs : FS) (p : Bytes) : Option Kind := (fs.find? (fun e => e.1 = clean p)).map (·.2)
 
 inductive InitResult where
-  | written (p : Bytes)     -- exit 0, default Taskfile created at `p`
-  | exists_ (p : Bytes)     -- exit 101 (TaskfileAlreadyExistsError), nothing written
+  | written (p : Bytes)     -- exit 0, default Taskfile created at `p` (the path given to `os.WriteFile`)
+  | exists_ (p : Bytes)     -- exit 101 (TaskfileAlreadyExistsError) because of `p`, nothing written
   | error                   -- any other failure (parent missing / not a directory), nothing written
 deriving DecidableEq, Repr
 
 /-- `os.WriteFile` of a path that does not exist: needs its parent to be a directory -/
 def writeNew (fs : FS) (p : Bytes) : InitResult :=
-  if stat fs (dir p) = some .dir then .written (clean p) else .error
+  if stat fs (dir p) = some .dir then .written p else .error
 
 /-- `task.InitTaskfile` -/
 def initTaskfile (fs : FS) (path : Bytes) : InitResult :=
   match stat fs path with
-  | some .file => .exists_ (clean path)
+  | some .file => .exists_ path
   | some .dir =>
     let p := smartJoin path defaultTaskfile
-    if (stat fs p).isSome then .exists_ (clean p) else writeNew fs p
+    if (stat fs p).isSome then .exists_ p else writeNew fs p
   | none => writeNew fs path
 
 /-- `task --init` with the given positional arguments (those before `--`). -/
 def initRun (fs : FS) (wd : Bytes) (argv : List Bytes) (dash : Option Nat) : InitResult :=
-  match get argv dash with
+  match argsGet argv dash with
   | .ok (positional, _) => initTaskfile fs (initArgPath wd positional)
   | .error _ => .error
 
 /-- the file system afterwards -/
 def initApply (fs : FS) : InitResult → FS
-  | .written p => (p, .file) :: fs
+  | .written p => (clean p, .file) :: fs
   | _ => fs
 
 end TaskModel.Quote
